@@ -971,6 +971,21 @@ def _crop(ctx, prog):
     raises = [e for e in r.of_kind("raise")
               if (end, "Lt", start) in _cmp_set(e.live)]
     ok = bool(raises) and raises[0].idx < red[0].idx
+    if not ok:
+        # the guard turned round (reduce under start <= end, raise in the
+        # else branch): judged in the world start > end — the reduction is
+        # unreachable there and some raise is taken
+        def inverted(a):
+            c = norm_cmp(a) if a.op == "cmp" else None
+            if c in ((end, "Lt", start),):
+                return True
+            if c in ((start, "LtE", end), (start, "Lt", end)):
+                return False
+            return None
+        ok = all(tm.fold(e.live, inverted) is False for e in red) and any(
+            tm.fold(e.live, inverted) is not False
+            for e in r.of_kind("raise")
+            if any(inverted(a) is not None for a in tm.atoms(e.live)))
     ctx.ob("C11.3", f, ok,
            "time crop: start > end raises before the reduction" if ok else
            "time crop: start > end is not refused", key="C11.3:refuse")
